@@ -2,6 +2,8 @@ import Qhttp.Model.Proxy
 import Qhttp.Model.Fs
 import Qhttp.Model.Http
 import Qhttp.Props.C02
+import Qhttp.Lemmas.ProxyTarget
+import Qhttp.Lemmas.ProxyHead
 /-
   C12 — the proxy forwards the client's request upstream unaltered in meaning.
 -/
@@ -74,5 +76,208 @@ def holds (env : Env) (c : Cfg) (evs : List PEv) (obs : List Obs) : Bool :=
          else vals XRI m.headers == [c.peerIP]) &&
         -- the body: in order, nothing else, complete once everything is delivered
         m.body.isPrefixOf entitled && (if settled evs then m.body == entitled else true)
+
+/-! ## Theorems
+
+  Helper lemmas live in `Qhttp/Lemmas/Proxy*.lean` (namespace `Qhttp.ProxyL`).  All statements are
+  about arbitrary byte strings, header maps and configurations (unbounded).
+
+  The one hypothesis that is NOT guaranteed by the library and is therefore explicit:
+  * `C03L.HdrWf h` — every header entry has a non-empty name free of ':' and CR and a value free of
+    CR.  `Parser::parseHeaderList` guarantees the ':' part only (`ProxyL.wf_of_parseHeaderList`
+    derives the rest from CR-free lines with non-blank names): an empty name (line `": v"`) is
+    accepted by the library and forwarded as it is, see `empty_name_forwarded` (known finding).
+
+  History: with the query copied verbatim (`rawQuery` instead of `upstreamQuery`) the target
+  clause was false — a lone LF or CR in the query passes `Parser::parseHeaders` and `QUrl` and
+  reached the upstream request line (`new feed:"GET /a?x<LF>Injected:y HTTP/1.1<CRLF><CRLF>" turn
+  turn`); repaired in the library, `lone_LF_is_escaped` shows the same input now. -/
+
+open ProxyL
+
+/-! ### 1. the request target -/
+
+/-- '%' itself is always escaped in the path part, so decoding inverts encoding there -/
+theorem pathKeep_escapes_percent : pathKeep 37 = false := pathKeep_37
+
+/-- `QUrl::fromPercentEncoding ∘ QUrl::toPercentEncoding = id` for every keep-set without '%' -/
+theorem decode_encode (keep : UInt8 → Bool) (h : keep 37 = false) (p : Bytes) :
+    Fs.pctDecode (pctEncode keep p) = p := pctDecode_pctEncode keep h p
+
+/-- decoding commutes with re-encoding for every keep-set that keeps '%' and all hex digits (the
+    query's): existing escapes stay, stray '%' stay, newly escaped bytes decode to themselves.
+    True without exception (in particular for '%' followed by a byte that gets escaped). -/
+theorem decode_reencode (keep : UInt8 → Bool) (h37 : keep 37 = true)
+    (hk : ∀ n, n < 256 → (Fs.hexv (UInt8.ofNat n)).isSome = true → keep (UInt8.ofNat n) = true)
+    (x : Bytes) : Fs.pctDecode (pctEncode keep x) = Fs.pctDecode x :=
+  pctDecode_pctEncode_commute keep h37 hk x
+
+/-- every byte either encoder emits is a kept byte, '%' or an upper-case hex digit -/
+theorem encoder_alphabet (keep : UInt8 → Bool) (p : Bytes) :
+    ∀ x ∈ pctEncode keep p, keep x = true ∨ x = 37 ∨ isUpHex x = true := fun _ hx => mem_pctEncode hx
+
+/-- the encoded path part, whatever the routed path is (any bytes: space, CR, LF, '?', '#', '%',
+    non-ASCII): no SP, CR, LF, '?' -/
+theorem path_part_clean (p : Bytes) :
+    SP ∉ (47 :: pctEncode pathKeep p) ∧ CR ∉ (47 :: pctEncode pathKeep p) ∧
+    LF ∉ (47 :: pctEncode pathKeep p) ∧ (63 : UInt8) ∉ (47 :: pctEncode pathKeep p) :=
+  ⟨not_mem_encPath p (by decide) (by decide) (by decide) (by decide),
+   not_mem_encPath p (by decide) (by decide) (by decide) (by decide),
+   not_mem_encPath p (by decide) (by decide) (by decide) (by decide),
+   not_mem_encPath p (by decide) (by decide) (by decide) (by decide)⟩
+
+/-- **the target**, for EVERY routed path `p` and EVERY raw client target `r` (no hypothesis):
+    it contains no SP, CR, LF; cut at its first '?' it gives the encoded path, which decodes back
+    to "/" ++ p, and the encoded query, which is free of SP and decodes to exactly what the
+    client's raw query (everything from the first '?' of `r`) decodes to. -/
+theorem target_clean (p r : Bytes) :
+    SP ∉ (47 :: pctEncode pathKeep p ++ upstreamQuery r) ∧
+    CR ∉ (47 :: pctEncode pathKeep p ++ upstreamQuery r) ∧
+    LF ∉ (47 :: pctEncode pathKeep p ++ upstreamQuery r) ∧
+    (match breakOn [63] (47 :: pctEncode pathKeep p ++ upstreamQuery r) with
+      | some (a, q) => (a, 63 :: q)
+      | none => (47 :: pctEncode pathKeep p ++ upstreamQuery r, [])) =
+        (47 :: pctEncode pathKeep p, upstreamQuery r) ∧
+    Fs.pctDecode (47 :: pctEncode pathKeep p) = 47 :: p ∧
+    SP ∉ upstreamQuery r ∧
+    Fs.pctDecode (upstreamQuery r) = Fs.pctDecode (rawQuery r) := by
+  obtain ⟨a, b, c⟩ := ProxyL.target_clean p r
+  exact ⟨a, b, c, breakOn_target p r, pctDecode_encPath p, SP_not_mem_query r, pctDecode_upstreamQuery r⟩
+
+/-- the raw query is the suffix of the raw target starting at its first '?' (or empty) -/
+theorem query_as_sent (r : Bytes) :
+    ((63 : UInt8) ∉ r ∧ rawQuery r = []) ∨
+    ∃ a q, r = a ++ [63] ++ q ∧ (63 : UInt8) ∉ a ∧ rawQuery r = 63 :: q := rawQuery_cases r
+
+/-! ### 2. the head is one well-formed HTTP/1.1 request head -/
+
+/-- decidable form of `Http.EntryOk` -/
+def entryOkB (e : Bytes × Bytes) : Bool :=
+  !e.1.isEmpty && !containsByte COLON e.1 && !containsByte CR e.1 && !containsByte CR e.2
+
+theorem entryOkB_iff (e : Bytes × Bytes) : entryOkB e = true ↔ Http.EntryOk e := by
+  obtain ⟨k, v⟩ := e
+  simp only [entryOkB, Http.EntryOk, Bool.and_eq_true, Bool.not_eq_true', Http.containsByte_eq_false,
+    List.isEmpty_eq_false_iff]
+  constructor
+  · rintro ⟨⟨⟨a, b⟩, c⟩, d⟩; exact ⟨a, b, c, d⟩
+  · rintro ⟨a, b, c, d⟩; exact ⟨⟨⟨a, b⟩, c⟩, d⟩
+
+/-- decidable form of `C03L.HdrWf` -/
+def hdrWfB (h : HeaderMap) : Bool := h.all entryOkB
+
+theorem hdrWfB_iff (h : HeaderMap) : hdrWfB h = true ↔ C03L.HdrWf h := by
+  simp only [hdrWfB, List.all_eq_true, entryOkB_iff]; rfl
+
+/-- the head is `request line CRLF (name ": " value CRLF)* CRLF`, by construction -/
+theorem head_shape (c : Cfg) (s : Sock) :
+    upstreamHead c s =
+      (methodToString s.method ++ [SP] ++ (47 :: pctEncode pathKeep c.path ++ upstreamQuery s.rawPath) ++
+        lit [' ','H','T','T','P','/','1','.','1']) ++ CRLF ++
+      Sock.headerLines (fwdHeaders c s.reqHeaders) ++ CRLF := upstreamHead_eq c s
+
+/-- **the upstream head is one well-formed HTTP/1.1 request head**, for every parsed request
+    (method one of the eight codes — all `Parser.methodCode` produces, see `method_token`), every
+    peer address without CR and every body that follows, under `HdrWf` of the client's header map
+    (explicit: see the file comment): the strict reader reads back the request line, which splits
+    at SP into exactly [the client's method token, the target, "HTTP/1.1"], the forwarded header
+    map entry by entry, and the body untouched. -/
+theorem head_wellformed (c : Cfg) (s : Sock) (body : Bytes)
+    (hm : s.method ∈ eightCodes) (HdrWf : C03L.HdrWf s.reqHeaders) (hp : CR ∉ c.peerIP) :
+    ∃ m, Http.parse (upstreamHead c s ++ body) = some m ∧
+      m.headers = fwdHeaders c s.reqHeaders ∧ m.body = body ∧
+      splitF [SP] (m.start.length + 1) none m.start =
+        [methodToString s.method, 47 :: pctEncode pathKeep c.path ++ upstreamQuery s.rawPath,
+         lit ['H','T','T','P','/','1','.','1']] ∧
+      Parser.methodCode (methodToString s.method) = some s.method :=
+  ⟨_, ProxyL.head_wellformed c s body hm HdrWf hp, rfl, rfl, startLine_split c s hm,
+    (methodToString_clean _ hm).2.2⟩
+
+/-- the method token written is the one the client sent -/
+theorem method_token {tok : Bytes} {code : Nat} (h : Parser.methodCode tok = some code) :
+    methodToString code = tok ∧ code ∈ eightCodes :=
+  ⟨methodToString_of_code h, code_mem_eightCodes h⟩
+
+/-- where `HdrWf` comes from: client header lines without CR whose name part is not blank -/
+theorem hdrWf_of_lines {hs : List Bytes} {m : HeaderMap}
+    (h : Parser.parseHeaderList hs [] = some m) (hl : ∀ l ∈ hs, LineOk l) : C03L.HdrWf m :=
+  wf_of_parseHeaderList h hl
+
+/-! ### 3. the forwarded header map, name by name (no hypothesis at all) -/
+
+/-- every client header other than the two proxy headers is forwarded with exactly its values,
+    in the same order -/
+theorem headers_forwarded (c : Cfg) (h : HeaderMap) (k : Bytes)
+    (h1 : lower k ≠ lower XFF) (h2 : lower k ≠ lower XRI) :
+    HeaderMap.values k (fwdHeaders c h) = HeaderMap.values k h := by
+  apply ProxyL.headers_forwarded
+  · cases hk : HeaderMap.keyEq XFF k
+    · rfl
+    · exact absurd (HeaderMap.keyEq_iff.mp hk).symm h1
+  · cases hk : HeaderMap.keyEq XRI k
+    · rfl
+    · exact absurd (HeaderMap.keyEq_iff.mp hk).symm h2
+
+/-- exactly one X-Forwarded-For entry goes upstream; its value is the client's values in the order
+    received (`values` lists the most recent first, hence the `reverse`), each followed by ", ",
+    then the peer address -/
+theorem xff_ends_with_peer (c : Cfg) (h : HeaderMap) :
+    HeaderMap.values XFF (fwdHeaders c h) =
+      [((HeaderMap.values XFF h).reverse.flatMap fun v => v ++ [44, 32]) ++ c.peerIP] :=
+  ProxyL.xff_ends_with_peer c h
+
+/-- X-Real-IP: the client's own values if it sent any, else the peer address -/
+theorem xri (c : Cfg) (h : HeaderMap) :
+    HeaderMap.values XRI (fwdHeaders c h) =
+      if HeaderMap.contains XRI h then HeaderMap.values XRI h else [c.peerIP] := ProxyL.xri c h
+
+/-! ### non-vacuity, the repaired finding, the known finding -/
+
+section examples
+
+def exSock : Sock :=
+  { method := 8, rawPath := lit ['/','p','/','x','%','2','0','y','?','q','=','1',' ','&','u','=','%','\n','?','b'],
+    reqHeaders := [(lit ['H','o','s','t'], lit ['h']),
+                   (lit ['X','-','F','o','r','w','a','r','d','e','d','-','F','o','r'], lit ['8','.','8','.','8','.','8']),
+                   (lit ['x','-','f','o','r','w','a','r','d','e','d','-','f','o','r'], lit ['9','.','9','.','9','.','9'])] }
+
+/-- a routed path with space, CR, LF, '?', '%' and a non-ASCII byte -/
+def exCfg : Cfg := { path := [120, 32, 121, 13, 10, 63, 37, 195, 169] }
+
+example : exSock.method ∈ eightCodes ∧ hdrWfB exSock.reqHeaders = true ∧ CR ∉ exCfg.peerIP := by decide
+
+example : (47 :: pctEncode pathKeep exCfg.path) =
+    lit ['/','x','%','2','0','y','%','0','D','%','0','A','%','3','F','%','2','5','%','C','3','%','A','9'] := by
+  decide
+
+example : upstreamQuery exSock.rawPath =
+    lit ['?','q','=','1','%','2','0','&','u','=','%','%','0','A','?','b'] := by decide
+
+example : HeaderMap.values XFF (fwdHeaders exCfg exSock.reqHeaders) =
+    [lit ['9','.','9','.','9','.','9',',',' ','8','.','8','.','8','.','8',',',' ','1','0','.','1','.','2','.','3']] := by
+  decide
+
+example : (Http.parse (upstreamHead exCfg exSock ++ [1, 2, 3])).map (·.body) = some [1, 2, 3] := by
+  decide +kernel
+
+/-- the request `GET /a?x<LF>Injected:y HTTP/1.1` is accepted by `Parser.parseRequestHeaders`
+    (and by `QUrl`); its LF is now escaped in the upstream target (it was forwarded verbatim) -/
+theorem lone_LF_is_escaped :
+    let first : Bytes := lit ['G','E','T',' ','/','a','?','x','\n','I','n','j','e','c','t','e','d',':','y',' ','H','T','T','P','/','1','.','1']
+    let raw : Bytes := lit ['/','a','?','x','\n','I','n','j','e','c','t','e','d',':','y']
+    (Parser.parseRequestHeaders first).map (·.rawPath) = some raw ∧ LF ∈ rawQuery raw ∧
+    upstreamQuery raw = lit ['?','x','%','0','A','I','n','j','e','c','t','e','d',':','y'] := by
+  decide
+
+/-- KNOWN FINDING (model = library, confirmed on the harness: `new feed:"GET /a HTTP/1.1<CRLF>:
+    v<CRLF><CRLF>" turn turn`): a header line with an empty name is accepted and forwarded as
+    `": v"`, which the strict reader (like any HTTP reader) refuses — `HdrWf` is necessary -/
+theorem empty_name_forwarded :
+    let head : Bytes := lit ['G','E','T',' ','/','a',' ','H','T','T','P','/','1','.','1','\r','\n',':',' ','v']
+    (Parser.parseRequestHeaders head).map (·.headers) = some [([], lit ['v'])] ∧
+    Http.parse (upstreamHead {} { method := 2, rawPath := lit ['/','a'], reqHeaders := [([], lit ['v'])] }) = none := by
+  decide +kernel
+
+end examples
 
 end Qhttp.C12
